@@ -24,7 +24,9 @@ RULE = ("random molecules glued from 73 FG-rich fragments (carbonyls, esters, am
         "hydrogens written explicitly on none / some / all atoms; node ids contiguous / offset / sparse / negative / shuffled "
         "insertion order (the D16 situation); configuration = the default list (70%) or a generated list of 3-8 patterns with random "
         "group_atoms and anti-patterns (25%), or (5%) one of four small configurations inside the input class of the known finding KF-C05-descendant; "
-        "plus a family of small hetero rings (3-6 members, O/N/S in the ring, substituents on ring atoms), each in 3 different SMILES writings / adjacency "
+        "plus ring PATTERNS of 3-5 members (17 patterns, with and without wildcards, chain prefixes as less specific groups) against the same ring and "
+        "every copy with one ring bond doubled, in different writings; plus molecules whose largest node id is exactly 0 / -1 / 1 (single atoms with id 0, "
+        "ids ending at 0) with groups that list a pattern hydrogen; plus a family of small hetero rings (3-6 members, O/N/S in the ring, substituents on ring atoms), each in 3 different SMILES writings / adjacency "
         "orders, with user configurations of chain patterns of depth 1-4 from a hetero anchor (a deep pattern and its prefixes as less specific groups); "
         "about 12% of the user configurations give two groups the same name (the checker then runs on unique labels and on every reading of the reported names); "
         "require_implicit_hydrogen both ways. Checks: 'spec' = every clause with 'no CHILD witnessed' (must hold for every configuration), 'descendant' = the full "
@@ -74,6 +76,14 @@ def gen_case(rng, default_p=0.7, kf_p=0.05):
         if rng.random() < 0.12:
             fc.dup_names(rng, specs)        # two groups with the same name (nothing in FGConfig forbids it)
     req_h = rng.random() < 0.6
+    r = rng.random()
+    if r < 0.06 and len(g) > 0:
+        mx = max(g.nodes)
+        g, scheme = fc.shift_ids(g, lambda n: n - mx), "max0"              # the largest id is exactly 0
+    elif r < 0.10 and len(g) > 0:
+        mx = max(g.nodes)
+        d = rng.choice([-1, 1])
+        g, scheme = fc.shift_ids(g, lambda n: n - mx + d), "max%+d" % d     # the largest id is -1 / +1
     return {"graph": g, "specs": specs, "req_h": req_h, "scheme": scheme, "hmode": hmode, "kind": kind}
 
 
@@ -100,13 +110,64 @@ def gen_ring_cases(rng, k=3):
     return out
 
 
+def gen_ring_pattern_cases(rng, pattern, writings=1):
+    """a user configuration with the ring PATTERN (3-5 members, with / without wildcards) and chain prefixes as less specific
+    groups, against the ring itself and against every copy with ONE ring bond doubled (the pattern must not match there:
+    the ring-closing bond, whichever it is for the search order, is compared like any other), in several SMILES writings"""
+    from fgutils.parse import parse
+    specs = fc.ring_pattern_config(rng, pattern)
+    out = []
+    for tag, mol in fc.ring_pattern_molecules(pattern):
+        for j in range(writings):
+            text = fc.write_smiles(mol, rng)
+            g = parse(text)
+            scheme = "smiles"
+            if rng.random() < 0.3:
+                g, scheme, _ = gens.reid(rng, g)
+            out.append({"graph": g, "specs": [dict(x) for x in specs], "req_h": rng.random() < 0.5, "scheme": scheme,
+                        "hmode": "none", "kind": "ring-pattern", "text": text, "tag": tag})
+    return out
+
+
+ZERO_MOLS = ["O", "N", "S", "CO", "CCO", "CN", "C(O)O", "CC(O)OC", "OCO", "CS", "OO", "CC(C)O", "NO"]
+ZERO_CONFIGS = [None, None,
+                [{"name": "hydroxy", "pattern": "OH"}, {"name": "oxy", "pattern": "RO", "group_atoms": [1]}],
+                [{"name": "XH", "pattern": "RH"}, {"name": "alcohol", "pattern": "COH", "group_atoms": [1, 2]}],
+                [{"name": "amino", "pattern": "NH"}, {"name": "thiol", "pattern": "SH"}, {"name": "hydroxy", "pattern": "OH"}]]
+
+
+def gen_zero_case(rng):
+    """node ids whose MAXIMUM is exactly 0 (a single atom with id 0 such as water / ammonia; ids ..., -2, -1, 0) or -1 / 1,
+    with groups whose group_atoms contain a pattern hydrogen, mostly require_implicit_hydrogen=True: hydrogens added
+    internally (ids 1, 2, ...) must never be listed"""
+    from fgutils.parse import parse
+    g = parse(fc.write_smiles(fc._frag(rng.choice(ZERO_MOLS)), rng))
+    top = rng.choice([0, 0, 0, -1, 1])
+    order = list(g.nodes)
+    if rng.random() < 0.5:
+        rng.shuffle(order)                      # which atom carries the largest id
+    gaps = sorted(rng.sample(range(0, 2 * len(order) + 1), len(order)), reverse=True) if rng.random() < 0.3 \
+        else list(range(len(order)))
+    m = {n: top - gaps[i] for i, n in enumerate(order)}
+    g = fc.shift_ids(g, lambda n: m[n])
+    specs = rng.choice(ZERO_CONFIGS)
+    return {"graph": g, "specs": None if specs is None else [dict(x) for x in specs], "req_h": rng.random() < 0.85,
+            "scheme": "max%+d" % top if top else "max0", "hmode": "none", "kind": "ids-around-zero"}
+
+
 def generate(seed, tier, ncases=None):
     quick = tier == "quick"
-    n = ncases or (300 if quick else 8000)
-    n_rings = max(2, (ncases // 12) if ncases else (25 if quick else 700))
+    n = ncases or (220 if quick else 8000)
+    n_rings = max(2, (ncases // 12) if ncases else (20 if quick else 700))
     cases = [gen_case(lib.rng_for(seed, ID, i)) for i in range(n)]
     for j in range(n_rings):
         cases.extend(gen_ring_cases(lib.rng_for(seed, ID, 700000 + j)))
+    # every ring pattern x (the ring, each ring bond doubled in turn) x writings
+    for j, pat in enumerate(fc.RING_PATTERNS):
+        for rep in range(1 if quick or ncases else 12):
+            cases.extend(gen_ring_pattern_cases(lib.rng_for(seed, ID, 800000 + 100 * rep + j), pat, writings=1 if quick or ncases else 2))
+    for j in range(max(2, (ncases // 12) if ncases else (30 if quick else 600))):
+        cases.append(gen_zero_case(lib.rng_for(seed, ID, 900000 + j)))
     attach_outputs(cases)
     for c in cases:
         yield c
@@ -134,6 +195,13 @@ def _c(text, specs=None, req_h=True, kind="corpus", offset=0):
 
 
 def corpus():
+    cases = list(_corpus())
+    attach_outputs(cases)        # in parallel fresh interpreters, like the generated cases
+    for c in cases:
+        yield c
+
+
+def _corpus():
     # D7 witnesses: epoxid reported for ethers / crown ethers before the matcher repair
     yield _c("CCOCC", kind="corpus-D7")
     yield _c("C1COC1", kind="corpus-D7")
@@ -158,6 +226,23 @@ def corpus():
         yield _c(smi, specs=[dict(x) for x in chain], req_h=False, kind="corpus-ring")
         yield _c(smi, specs=[dict(x) for x in chain], req_h=True, kind="corpus-ring")
     yield _c("CC1(C)OC1", specs=[{"name": "a", "pattern": "RO"}, {"name": "b", "pattern": "RCCCO"}, {"name": "c", "pattern": "OCCN"}], kind="corpus-ring")
+    # a ring PATTERN against the same ring with one bond doubled (the ring-closing bond of the search must be compared too)
+    ringcfg = [{"name": "oxirane", "pattern": "C1CO1"}, {"name": "ether", "pattern": "COC"}, {"name": "oxy", "pattern": "CO"}]
+    for smi in ["C1CO1", "C1=CO1", "O1C=C1", "C1OC=1"]:
+        yield _c(smi, specs=[dict(x) for x in ringcfg], req_h=False, kind="corpus-ringpattern")
+    ring4 = [{"name": "oxetane", "pattern": "C1CCO1"}, {"name": "oxy", "pattern": "CO"}]
+    for smi in ["C1CCO1", "C1C=CO1", "C1=CCO1", "O1CC=C1", "C1CC=O1"]:
+        yield _c(smi, specs=[dict(x) for x in ring4], req_h=True, kind="corpus-ringpattern")
+    # the largest node id is exactly 0: water / ammonia as single atoms with id 0, methanol with ids -1, 0
+    ohcfg = [{"name": "hydroxy", "pattern": "OH"}, {"name": "amino", "pattern": "NH"}]
+    for smi in ["O", "N"]:
+        yield _c(smi, specs=[dict(x) for x in ohcfg], req_h=True, kind="corpus-maxid0")
+        yield _c(smi, req_h=True, kind="corpus-maxid0")
+    for smi in ["CO", "CC(O)OC", "CCO"]:
+        c = _c(smi, req_h=True, kind="corpus-maxid0")
+        mx = max(c["graph"].nodes)
+        c["graph"] = fc.shift_ids(c["graph"], lambda n: n - mx)
+        yield c
     # two groups with the same name
     yield _c("CC(=O)OC", specs=[{"name": "carbonyl", "pattern": "C=O"}, {"name": "acyl", "pattern": "RC(=O)OR", "group_atoms": [1, 2, 3]},
                                 {"name": "acyl", "pattern": "RC(=O)N(R)R", "group_atoms": [1, 2, 3]}], kind="corpus-dupnames")
@@ -312,7 +397,9 @@ def nontrivial(c, out):
 def classes(c, out):
     g = c["graph"]
     yield "config=" + ("default" if c["specs"] is None else "kf-family" if c["kind"] in ("kf-family", "corpus-descendant")
-                       else "chains" if c["kind"] == "hetero-ring" else "generated")
+                       else "chains" if c["kind"] == "hetero-ring" else "ring-pattern" if c["kind"] == "ring-pattern" else "generated")
+    if len(g):
+        yield "max_id=" + ("0" if max(g.nodes) == 0 else "-1" if max(g.nodes) == -1 else "1" if max(g.nodes) == 1 else "other")
     if c["specs"] is not None:
         yield "dup_names=" + ("yes" if fc.has_dup_names(c["specs"]) else "no")
     yield "req_h=%s" % c["req_h"]
